@@ -24,6 +24,7 @@
  Rp presence      : optional numeric fields are tested with `is None` / membership, never by truthiness (0 is a value).
  Rv verbose       : blocks guarded by the verbose flag only report; the design does not depend on the logging flag.
  Re for-each      : loops that act on every item are never left early (break / return).
+ R7 selected budget: power reduction of the SELECTED model; cached span loss includes the padding (shared with C10-R3, C17-R6).
 """
 import ast
 
@@ -421,6 +422,16 @@ def re_foreach(ctx):
     ctx.need('Re.for-each', 3)
 
 
+def r7_selected_budget(ctx):
+    """R7: the budget is closed on the amplifier that is installed: the saturation power reduction applied to dp / gain is the one
+    of the SELECTED model (C10-R3), and the span loss cached for the gain computation includes the padding put on the span
+    (C17-R6)"""
+    from .c10 import r3_selection
+    from .c17 import r6_padding_cache
+    r3_selection(ctx)
+    r6_padding_cache(ctx)
+
+
 from ..memo import rule_for as _memo_rule
 
 RULES_MEMO = ('Rm.memo', _memo_rule('C09', 'the operating point designed for another element or reference would be reused'))
@@ -430,4 +441,4 @@ from ..presence import rule_for as _presence_rule
 
 RULES_PRESENCE = ('Rp.presence', _presence_rule('C09', 'a configured power / gain / VOA of exactly 0 would be replaced by another value in the budget'))
 
-RULES = [('R6.span-loss', r6_span_loss), ('R1.budget', r1_budget), ('R2.rule', r2_rule), ('R3.saturation', r3_saturation), ('R4.voa', r4_voa), ('R5.chaining', r5_chaining), RULES_MEMO, RULES_PRESENCE, ('Rv.verbose-pure', rv_verbose), ('Re.for-each', re_foreach)]
+RULES = [('R6.span-loss', r6_span_loss), ('R1.budget', r1_budget), ('R2.rule', r2_rule), ('R3.saturation', r3_saturation), ('R4.voa', r4_voa), ('R5.chaining', r5_chaining), RULES_MEMO, RULES_PRESENCE, ('Rv.verbose-pure', rv_verbose), ('Re.for-each', re_foreach), ('R7.selected-budget', r7_selected_budget)]
